@@ -1,6 +1,7 @@
 package main
 
 import (
+	"os"
 	"fmt"
 	"go/token"
 	"go/types"
@@ -282,6 +283,7 @@ func (c *FnCtx) specCall(st *State, fn *ssa.Function, args []*Term) []*Term {
 		c.specDepth = map[*ssa.Function]int{}
 		c.specSeen = map[string]bool{}
 	}
+	c.specFrameLemma(st, fn, si, uargs, args, out)
 	if gfc := c.eng.ld.byFn[fn]; gfc != nil && len(gfc.Ensures) > 0 && !(fn == c.top) {
 		ck := fmt.Sprintf("contract@%d", out[0].id)
 		if !c.specSeen[ck] {
@@ -300,6 +302,9 @@ func (c *FnCtx) specCall(st *State, fn *ssa.Function, args []*Term) []*Term {
 		}
 	}
 	key := fmt.Sprintf("%d@%d", out[0].id, c.specDepth[fn])
+	if gfc := c.eng.ld.byFn[fn]; gfc != nil && gfc.Uf && len(ts.FreeBoundVars(out[0])) > 0 {
+		return out
+	}
 	if c.specDepth[fn] < c.eng.fuel && !c.specSeen[key] {
 		c.specSeen[key] = true
 		c.specDepth[fn]++
@@ -314,6 +319,91 @@ func (c *FnCtx) specCall(st *State, fn *ssa.Function, args []*Term) []*Term {
 		}
 	}
 	return out
+}
+
+// specFrameLemma: a ghost function applied to objects that existed when the verified function was entered has the
+// same value in a "havoc fresh-maps" heap as in the heap before that havoc. Sound because (a) such a heap agrees with
+// the older one on every object below the entry watermark (each store in the loop carries a loop-frame obligation),
+// (b) the verified function has no modifies clause, so objects below the entry watermark keep their entry content,
+// which only refers to objects below the entry watermark, and (c) ghost functions only read what is reachable from
+// their arguments. Generated only when every argument is a scalar, a sequence of scalars, or a map reference.
+func (c *FnCtx) specFrameLemma(st *State, fn *ssa.Function, si *SpecInfo, uargs, args, out []*Term) {
+	ts := c.eng.ts
+	if c.fc == nil || len(c.fc.Modifies) > 0 || c.entryWM == nil {
+		if os.Getenv("GOVC_DEBUG_FRAME") != "" {
+			fmt.Fprintf(os.Stderr, "specFrameLemma %s: skipped fc=%v entryWM=%v\n", fn.Name(), c.fc != nil, c.entryWM != nil)
+		}
+		return
+	}
+	nh := 0
+	for _, h := range si.heaps {
+		if _, ok := c.eng.heapSorts[h]; ok {
+			nh++
+		}
+	}
+	repl := append([]*Term{}, uargs...)
+	changed := false
+	var conds []*Term
+	for i := 0; i < nh && i < len(repl); i++ {
+		for {
+			if li, ok := c.layers[repl[i].id]; ok && li.fresh {
+				repl[i] = li.old
+				changed = true
+				continue
+			}
+			if t := repl[i]; t.kind == kApp && t.op == "store" && len(conds) < 12 {
+				// a store to an object allocated after entry does not matter either
+				conds = append(conds, ts.Ge(t.args[1], c.entryWM))
+				repl[i] = t.args[0]
+				changed = true
+				continue
+			}
+			break
+		}
+	}
+	if os.Getenv("GOVC_DEBUG_FRAME") != "" {
+		fmt.Fprintf(os.Stderr, "specFrameLemma %s: nh=%d changed=%v heaps=%v\n", fn.Name(), nh, changed, si.heaps)
+	}
+	if !changed {
+		return
+	}
+	params := fn.Signature.Params()
+	off := len(uargs) - len(args)
+	for i, a := range args {
+		var pt types.Type
+		if fn.Signature.Recv() != nil {
+			if i == 0 {
+				pt = fn.Signature.Recv().Type()
+			} else {
+				pt = params.At(i - 1).Type()
+			}
+		} else {
+			pt = params.At(i).Type()
+		}
+		_ = off
+		switch u := pt.Underlying().(type) {
+		case *types.Basic:
+		case *types.Map:
+			conds = append(conds, ts.Lt(a, c.entryWM))
+		case *types.Slice:
+			if _, ok := u.Elem().Underlying().(*types.Basic); !ok {
+				return
+			}
+		case *types.Interface:
+			if !(a.kind == kApp && a.op == "VNil") {
+				// a scalar, or a map that existed at entry (a list could hold younger maps: not covered)
+				conds = append(conds, ts.Not(ts.App("(_ is VList)", SBool, a)), ts.Not(ts.App("(_ is VBox)", SBool, a)),
+					ts.Implies(ts.App("(_ is VMap)", SBool, a), ts.Lt(ts.App("vmap", SInt, a), c.entryWM)))
+			}
+		default:
+			return
+		}
+	}
+	for i := range out {
+		older := ts.UF(out[i].op, out[i].sort, repl...)
+		c.addFactT(&State{pc: ts.Bool(true)}, out[i], ts.Implies(ts.And(conds...), ts.Eq(out[i], older)))
+	}
+	c.trusted["ghost functions depend only on what is reachable from their arguments (frame lemma for objects older than the verified call)"] = true
 }
 
 // ---- calls ----
@@ -433,7 +523,7 @@ func (c *FnCtx) staticCall(fr *Frame, st *State, x *ssa.Call, callee *ssa.Functi
 				}
 			}
 		}
-		if si.rec {
+		if gfc := c.eng.ld.byFn[callee]; si.rec || (gfc != nil && gfc.Uf) {
 			c.setResult(fr, x, c.specCall(st, callee, args))
 			return
 		}
